@@ -118,9 +118,10 @@ def extract(config, repo=None, log=sys.stderr, thash=None):
             shutil.rmtree(out)
         os.makedirs(out)
         # one target dir per config, shared by all trees; a lock serialises cargo runs on it
-        tgt = os.path.join(WORK, "tgt", config)
+        sfx = os.environ.get("VERIF_TGT_SUFFIX", "")
+        tgt = os.path.join(WORK, "tgt", config + sfx)
         os.makedirs(tgt, exist_ok=True)
-        tlock = open(os.path.join(WORK, "tgt", config + ".lock"), "w")
+        tlock = open(os.path.join(WORK, "tgt", config + sfx + ".lock"), "w")
         fcntl.flock(tlock, fcntl.LOCK_EX)
         try:
             # cargo's freshness cache would skip the wrapper: drop the members' fingerprints
